@@ -2,7 +2,7 @@
 # try_seed.sh <seed dir with patch.diff + demo_test.go> <check id>...
 # 1. in a scratch worktree: patch applies, library builds, existing tests pass, demo fails with / passes without the change
 # 2. applies the patch to /repo, runs the given checks (quick), and reverts /repo.
-export GOFLAGS=-mod=mod GOPROXY=off GOSUMDB=off GOTOOLCHAIN=local
+export GOFLAGS=-mod=mod GOPROXY=off GOSUMDB=off GOTOOLCHAIN=local LINES_OUT=${LINES_OUT:-12}
 D=$(readlink -f "$1"); shift
 WT=/tmp/wt/verify.$$
 git -C /repo worktree add -q --detach $WT HEAD || exit 9
